@@ -218,7 +218,12 @@ impl<'a> Tr<'a> {
                         }
                     }
                 } else {
-                    vterm.unwrap_or_else(|| "()".to_string())
+                    let v = vterm.unwrap_or_else(|| "()".to_string());
+                    if fr.state.is_empty() {
+                        v
+                    } else {
+                        format!("({}, {})", v, fr.state.iter().map(|x| lean_ident(x)).collect::<Vec<_>>().join(", "))
+                    }
                 };
                 let mut t = format!("(.brk {})", payload);
                 for _ in 0..depth {
@@ -249,7 +254,9 @@ impl<'a> Tr<'a> {
                         return Ok(o);
                     }
                 }
-                let c = self.compound(e, &[], true, expect)?;
+                // assignments to outer variables inside the construct are handed back together with its value
+                let outs = self.assigned_outer(e);
+                let c = self.compound(e, &outs, true, expect)?;
                 let t = self.fresh("t");
                 let mut pre = c.pre;
                 if c.div {
@@ -263,7 +270,7 @@ impl<'a> Tr<'a> {
                     }
                     return Ok(Out { pre, term, ty: Ty::Never, diverges: true });
                 }
-                push_bind(&mut pre, &format!("let {} ← ", t), c.lines);
+                push_bind(&mut pre, &format!("let {} ← ", Self::bind_pattern(Some(&t), &outs)), c.lines);
                 Ok(Out { pre, term: t, ty: c.ty, diverges: false })
             }
             Expr::Macro(m) => {
@@ -333,6 +340,18 @@ impl<'a> Tr<'a> {
 
     fn path_expr(&mut self, p: &syn::ExprPath, expect: Option<&Ty>) -> R<Out> {
         let segs = path_segs(&p.path);
+        if let Some(q) = &p.qself {
+            // `<i8>::MAX`
+            let t = self.conv_ty(&q.ty);
+            if let (Ty::Int(_), Some(last)) = (&t, segs.last()) {
+                match last.as_str() {
+                    "MAX" => return Ok(Out::pure(self.ph("max", &[&t]), t)),
+                    "MIN" => return Ok(Out::pure(self.ph("min", &[&t]), t)),
+                    _ => {}
+                }
+            }
+            return self.err(p.span(), "unsupported qualified path");
+        }
         if segs.len() == 1 {
             let n = &segs[0];
             if let Some(t) = self.lookup(n) {
@@ -345,6 +364,9 @@ impl<'a> Tr<'a> {
                 let t = self.sub.fresh();
                 return Ok(Out::pure("none".into(), Ty::Option(Box::new(t))));
             }
+        }
+        if segs.last().map(|s| s == "PhantomData").unwrap_or(false) {
+            return Ok(Out::pure("()".into(), Ty::Unit));
         }
         let last = segs.last().cloned().unwrap_or_default();
         if last == "None" && segs.len() >= 2 {
@@ -845,6 +867,7 @@ impl<'a> Tr<'a> {
                 "is_empty" => return Ok(Out { pre: recv.pre, term: format!("{}.isEmpty", recv.term), ty: Ty::Bool, diverges: false }),
                 "as_bytes" => return Ok(Out { pre: recv.pre, term: recv.term, ty: Ty::Slice(Box::new(Ty::Int(IntTy::U8))), diverges: false }),
                 "as_slice" => return Ok(recv),
+                "as_str" => return Ok(Out { pre: recv.pre, term: recv.term, ty: Ty::Str, diverges: false }),
                 _ => {}
             }
         }
